@@ -150,6 +150,7 @@ func runC13(w *World, tr *Trace) {
 		rec := &c13Rec{task: ti, op: op, inv: nextSeq()}
 		switch op.K {
 		case "close":
+			w.FaultFired("close_injected_mid_run")
 			mu.Lock()
 			if closeInvoke < 0 {
 				closeInvoke = rec.inv
